@@ -50,7 +50,7 @@ Print Assumptions C01_complete_octet_transfer_delivers.
    the transfer runs to its end, every expected packet is first-sent exactly once in order, and
    the client has been sent the content.  The ending is the overflow error exactly when ... see
    C01_overflow_iff. *)
-Theorem C01_transfer_delivers : forall c plans, valid c ->
+Theorem C01_transfer_delivers : forall c plans, valid c -> t_proc c = 0 ->
   length plans = length (fst (expected c)) ->
   Forall (plan_ok (tmo (t_cfg c)) (t_retries c)) (combine (fst (expected c)) plans) ->
   t_events c = coop_script c plans ->
@@ -64,7 +64,7 @@ Print Assumptions C01_transfer_delivers.
    datagrams arriving while the packet or its ACK is lost, at any offsets within the round): they
    are consumed without moving the deadline, the round still times out, the packet is resent, and
    the transfer completes as above.  [gcoop_script], [gplan_ok]: Tftp/Delivery.v *)
-Theorem C01_transfer_delivers_noisy_rounds : forall c plans, valid c ->
+Theorem C01_transfer_delivers_noisy_rounds : forall c plans, valid c -> t_proc c = 0 ->
   length plans = length (fst (expected c)) ->
   Forall (gplan_ok (tmo (t_cfg c)) (t_retries c)) (combine (fst (expected c)) plans) ->
   t_events c = gcoop_script c plans ->
@@ -105,7 +105,7 @@ Print Assumptions C01_nowrap_overflow.
 (* (4) C02: no datagram from the client before (max_retries + 1) x timeout (silence, or only
    foreign senders): exactly max_retries + 1 sends of the first packet, at k x timeout, no other
    packet to the client, and the transfer ends by releasing file and socket *)
-Theorem C02_gives_up : forall c p0 rest, valid c -> fst (expected c) = p0 :: rest ->
+Theorem C02_gives_up : forall c p0 rest, valid c -> t_proc c = 0 -> fst (expected c) = p0 :: rest ->
   quiet_before (Z.of_nat (S (t_retries c)) * tmo (t_cfg c)) (t_events c) ->
   ending_of c = inl OTimeout /\
   client_sends (run_transfer_case c) =
@@ -152,12 +152,12 @@ Definition ex_base : tcase :=
      t_netascii := false; t_options := [(lit "blksize", lit "8")];
      t_limits := {| max_bs := 65464; max_tmo := 30; default_tmo := 2 |}; t_retries := 1; t_wrap := Some 0%N;
      t_kind := KNoFileno; t_events := [];
-     t_v := current; t_nv := ncurrent; t_na_always_skip := false |}.
+     t_proc := 0; t_v := current; t_nv := ncurrent; t_na_always_skip := false |}.
 Definition ex_coop : tcase :=
   {| t_content := t_content ex_base; t_chunks := t_chunks ex_base; t_netascii := false;
      t_options := t_options ex_base; t_limits := t_limits ex_base; t_retries := 1; t_wrap := Some 0%N;
      t_kind := KNoFileno; t_events := coop_script ex_base ex_plans;
-     t_v := current; t_nv := ncurrent; t_na_always_skip := false |}.
+     t_proc := 0; t_v := current; t_nv := ncurrent; t_na_always_skip := false |}.
 
 Example C01_delivery_nonvacuous :
   valid ex_coop /\ length ex_plans = length (fst (expected ex_coop)) /\
@@ -185,7 +185,7 @@ Definition ex_gcoop : tcase :=
   {| t_content := t_content ex_base; t_chunks := t_chunks ex_base; t_netascii := false;
      t_options := t_options ex_base; t_limits := t_limits ex_base; t_retries := 1; t_wrap := Some 0%N;
      t_kind := KNoFileno; t_events := gcoop_script ex_base ex_gplans;
-     t_v := current; t_nv := ncurrent; t_na_always_skip := false |}.
+     t_proc := 0; t_v := current; t_nv := ncurrent; t_na_always_skip := false |}.
 Example C01_delivery_noisy_rounds_nonvacuous :
   valid ex_gcoop /\ length ex_gplans = length (fst (expected ex_gcoop)) /\
   Forall (gplan_ok (tmo (t_cfg ex_gcoop)) (t_retries ex_gcoop)) (combine (fst (expected ex_gcoop)) ex_gplans) /\
@@ -203,7 +203,7 @@ Qed.
 Definition ex_silent (evs : list event) : tcase :=
   {| t_content := t_content ex_base; t_chunks := []; t_netascii := false;
      t_options := t_options ex_base; t_limits := t_limits ex_base; t_retries := 1; t_wrap := Some 0%N;
-     t_kind := KNoFileno; t_events := evs; t_v := current; t_nv := ncurrent; t_na_always_skip := false |}.
+     t_kind := KNoFileno; t_events := evs; t_proc := 0; t_v := current; t_nv := ncurrent; t_na_always_skip := false |}.
 Example C02_gives_up_nonvacuous :
   let evs := [Recv 100 7%N [0; 4; 0; 0]%N; Recv 3000 9%N [1]%N; Recv 4096 client [0; 4; 0; 0]%N] in
   valid (ex_silent evs) /\
@@ -223,7 +223,7 @@ Definition d1_silent : tcase :=
   {| t_content := [1; 2; 3]%N; t_chunks := []; t_netascii := false; t_options := [(lit "blksize", lit "8")];
      t_limits := {| max_bs := 65464; max_tmo := 30; default_tmo := 2 |}; t_retries := 1; t_wrap := Some 0%N;
      t_kind := KNoFileno; t_events := [];
-     t_v := {| retry_fallthrough := true; errcode_raises := false |}; t_nv := ncurrent; t_na_always_skip := false |}.
+     t_proc := 0; t_v := {| retry_fallthrough := true; errcode_raises := false; late_recv := false |}; t_nv := ncurrent; t_na_always_skip := false |}.
 Theorem C02_refuted_D1_declarative :
   ~ retransmissions_identical (run_transfer_case d1_silent) /\
   List.length (client_sends (run_transfer_case d1_silent)) = 4%nat /\
